@@ -406,6 +406,8 @@ func c17Specs() []cfg.Spec {
 			}
 		}
 	}
+	// the extension's exported parts wired by hand, without its AST transformer
+	out = append(out, cfg.Spec{Only: []string{cfg.STableParts}}, cfg.Spec{Only: []string{cfg.STableParts}, XHTML: true})
 	return out
 }
 
